@@ -212,7 +212,17 @@ def execute(check: Check, case, stats: Stats, known, masked=()) -> List[tuple]:
 # ------------------------------------------------------------------ search
 
 def search(check: Check, n_examples: int, seed: int, stats: Stats, known, shrink=True, max_restarts=1):
-    """Hypothesis search. Returns list of found failures: [{signature, detail, case}]"""
+    """Hypothesis search. Returns list of found failures: [{signature, detail, case}].
+    A check whose `strategy` is a list of strategies is stratified: every stratum gets an equal share of the examples in
+    its own Hypothesis run (Hypothesis does not draw the branches of one_of / sampled_from uniformly, so a class that must
+    be covered is better made a stratum than left to chance)."""
+    if isinstance(check.strategy, (list, tuple)):
+        out = []
+        k = len(check.strategy)
+        for i, strat in enumerate(check.strategy):
+            sub = Check(check.name, strat, check.run, check.quick, check.thorough, check.doc)
+            out.extend(search(sub, -(-n_examples // k), seed + 31 * i, stats, known, shrink, max_restarts))
+        return out
     import hypothesis
     from hypothesis import given, settings, HealthCheck, Phase
 
